@@ -51,6 +51,21 @@ def run(ctx, b, broken):
                     su.violation(text, "re-laying out the program changed the AST beyond coordinates", {"other_layout": ref[2]})
                 elif out != ref[1]:
                     su.violation(text, "re-laying out the program changed the regenerated C text", {"other_layout": ref[2]})
+    # very long runs of directives and blank lines between two tokens are layout too
+    for nrun in (600, 3000):
+        for filler in ('# {i} "f.h"\n', "#line {i}\n", "\n", "#pragma p{i}\n"):
+            run_ = "".join(filler.format(i=i + 1) for i in range(nrun))
+            text = "int a;\n" + run_ + "int b = a\n" + (run_ if "pragma" not in filler else "") + "+ 1;\n"
+            short = "int a;\n" + filler.format(i=1) + "int b = a\n" + (filler.format(i=1) if "pragma" not in filler else "") + "+ 1;\n"
+            ctx.evaluations += 1
+            ctx.count("layout:long-directive-run")
+            io_l, io_s = impl_parse(text, wc=False), impl_parse(short, wc=False)
+            kl = io_l.rsplit(US, 1)[0] if io_l.startswith("OK") else io_l
+            ks = io_s.rsplit(US, 1)[0] if io_s.startswith("OK") else io_s
+            if kl != ks and "pragma" not in filler:
+                su.violation(text[:300] + " ...", f"a run of {nrun} lines `{filler.strip()}` between two tokens changed the outcome: {io_l[:100]!r}", {"other_layout": short})
+            elif "pragma" in filler and not io_l.startswith("OK"):
+                su.violation(text[:300] + " ...", f"a run of {nrun} pragma lines is not accepted: {io_l[:100]!r}")
     # redundant parentheses around operands other than comma expressions
     g = cgen.Gen(ctx.rng)
     # every position of the grammar that takes an expression: (tokens before, precedence level the position requires, tokens after)
